@@ -174,7 +174,7 @@ def build_unit(ctx, src, nd):
     u.function(src, KD, r'void ' + K + r'link_node\(Node\* new_node\)', new_header=H['link_node'],
                rules=[AT_NODE, DIMS_CALL], nloops=1)
     u.function(src, KD, r'bool ' + K + r'erase\(\s*const CoordType& pt, const ValueType& v\)', new_header=H['erase'],
-               rules=[PT_EQ, R(r'\bn->value == v\b', 'n->value == *v', count=1), CALL_DELETE_NODE, AT_REF, AT_NODE], nloops=1)
+               rules=[PT_EQ, R(r'\bn->value (==|!=) v\b', r'n->value \1 *v', count=None), CALL_DELETE_NODE, AT_REF, AT_NODE], nloops=1)
     u.function(src, KD, r'void ' + K + r'erase_advance\(Iterator& it\)', new_header=H['erase_advance'],
                rules=[R(r'\bit\.', 'it->'), DQ_GET, CALL_DELETE_NODE])
     u.function(src, KD, r'const ValueType& ' + K + r'at\(\s*const CoordType& pt\) const', new_header=H['at'], ret_zero='0',
@@ -190,7 +190,7 @@ def build_unit(ctx, src, nd):
     u.function(src, KD, r'size_t ' + K + r'size\(\) const', new_header=H['size'])
     u.function(src, KD, r'bool ' + K + r'delete_node\(Node\* n\)', new_header=H['delete_node'], ret_zero='0',
                rules=[R(r'\bKDTree::find_subtree_min_max\(', 'KDTree_find_subtree_min_max('),
-                      R(r'\bmove\(target->value\)', 'target->value', count=1), DELETE], nloops=1)
+                      R(r'\bmove\((\w+->value)\)', r'\1', count=1), DELETE], nloops=1)
     u.function(src, KD, K + r'find_subtree_min_max\(Node\* n,\s*size_t target_dim, bool find_max\)',
                new_header=H['find_subtree_min_max'], rules=DQ + [AT_NODE], nloops=1)
     u.function(src, KD, K + r'Iterator::Iterator\(Node\* n\)', new_header=H['it_ctor'], rules=[DQ_PUT],
@@ -281,12 +281,19 @@ def groups_for(parent, side, nd, coord, tier, tag=''):
     unwind = str(max(n + 4, 5))
     out = []
 
+    # delete_node and the breadth-first search inside it: at most n-1 replacements / n-1 visited nodes; a tight per-loop bound
+    # (instead of the global one) divides the formula size by 4 (measured on the 4-node chain)
+    tight = 'KDTree_delete_node.0:%d,KDTree_find_subtree_min_max.0:%d' % (max(n + 1, 2), max(n + 1, 2))
+
     def G(op, fn, entry, defs=(), t=tier, timeout=300, mode=None):
+        flags = ['--unwind', unwind, '--unwinding-assertions', '--no-malloc-may-fail']
+        if entry in ('h_delete_node', 'h_erase', 'h_erase_advance'):
+            flags += ['--unwindset', tight]
         g = Group(name='KDTree[%s].%s.%s' % (inst, nm, op), harness=HARNESS, entry=entry, function=fn,
                   defines=base + list(defs), kind='bounded',
-                  bound='tree shape %s (%d nodes), %d-D %s coordinates, loops unwound %s times with unwinding assertions'
-                        % (nm, n, nd, coord, unwind),
-                  cbmc_flags=['--unwind', unwind, '--unwinding-assertions', '--no-malloc-may-fail'],
+                  bound='tree shape %s (%d nodes), %d-D %s coordinates, loops unwound %s times (delete_node / find_subtree_min_max: %d) '
+                        'with unwinding assertions' % (nm, n, nd, coord, unwind, max(n + 1, 2)),
+                  cbmc_flags=flags,
                   timeout=timeout, engines=['cadical', 'minisat'], first='cadical', stage1=90, tier=t, clause_note=NOTE,
                   replay=Replay(driver='C13/kdtree.cc', mode=mode or op.split('[')[0], extra=extra + [d.lower() for d in defs if d.startswith(('DEL_K', 'ER_MASK'))]))
         out.append(g)
@@ -317,11 +324,16 @@ def plan(ctx):
     for n in range(0, 4):
         for parent, side in shapes(n):
             groups += groups_for(parent, side, 2, 'int16_t', 'quick')
+    # 4-node shapes: delete_node in the quick tier (the pruning of find_subtree_min_max only matters from depth 3 on), every other
+    # operation in the thorough tier
+    for parent, side in shapes(4):
+        for g in groups_for(parent, side, 2, 'int16_t', 'thorough'):
+            if '.delete_node[' in g.name:
+                g.tier = 'quick'
+            groups.append(g)
     if ctx.tier == 'thorough':
         u3 = build_unit(ctx, src, 3)
         ctx.functions_under_contract += [f for f in u3.functions if 'Vector3' in f['c_header']]
-        for parent, side in shapes(4):
-            groups += groups_for(parent, side, 2, 'int16_t', 'thorough')
         for n in range(0, 4):
             for parent, side in shapes(n):
                 groups += groups_for(parent, side, 3, 'int16_t', 'thorough')
@@ -331,8 +343,28 @@ def plan(ctx):
 
 MANIFEST = dict(
     category='other',
-    text='',
-    note='',
+    text=('BOUNDED ONLY, nothing is proved for trees of unbounded size. The text of KDTree (insert/link_node, erase, delete_node, '
+          'find_subtree_min_max, at, exists, within, exists(low,high), erase_advance, Iterator ctor/++/==/!=/*, begin/end, size, ~KDTree) and of '
+          'Vector2/Vector3::at/==/dimensions is cut from /repo/src on every run, instantiated as KDTree<Vector2<int16_t>, int> and executed '
+          'symbolically by cbmc once per (tree shape, operation): every binary tree shape with <= 3 nodes (empty tree + 8 shapes; all operations) and, '
+          'for delete_node, every shape with 4 nodes (14 shapes) in the quick tier; thorough adds all operations on the 14 four-node shapes and repeats '
+          'the <= 3-node shapes with Vector3<int16_t> and Vector2<int64_t>. Pointers of the pre-state are built from indices; ALL coordinates and values '
+          'are symbolic, constrained only by the representation invariant of the shape (before strictly smaller / after_or_equal greater-or-equal on the '
+          'split axis), so every tie and duplicate pattern of that size is covered; operation arguments (point, value, query box) are symbolic; the '
+          'erase-while-iterating check enumerates all 2^n erase patterns. Checked per operation against a plain entry list: the representation invariant '
+          'holds again (parent links, dim = depth mod k, node_count, strict ordering, no dangling / leaked / doubly freed node), the stored multiset '
+          '(symbolic probe entry), size(), return values (erase reports whether a matching entry existed and removes exactly one), at/exists find every '
+          'stored point and only stored points, within/exists(low,high) equal the linear scan over the half-open box, iteration and iteration with '
+          'erase_advance visit every entry exactly once, the destructor frees each node exactly once and touches no null or freed node (empty tree '
+          'included). Because pre- and post-state satisfy the same predicate, each check is one inductive step from an arbitrary invariant state, but '
+          'only for trees of the enumerated sizes.'),
+    note=('Not covered: trees with more than 4 nodes (more than 3 for operations other than delete_node in the quick tier); value types other than int; '
+          'allocation failure; emplace(). Trusted: cbmc, the SAT solver (cadical/minisat), the extractor and its lowering rules (props/C13.py), the stubs '
+          'for std::deque / std::vector / std::pair / new / delete (stubs/C13_*.h, capacity and misuse are assertions), the list model and invariant '
+          'checker in harness/C13/kd.c. Three genuine defects were found by these checks and reproduced natively on the real template '
+          '(replay/C13/kdtree.cc under ASan): ~KDTree on an empty tree dereferenced null; within() threw on an empty tree; delete_node replaced a node by '
+          'the maximum of its before-subtree, which under ties on the split axis left an equal coordinate on the strictly-less side, so a surviving entry '
+          'was no longer found by at/exists/erase/within (witness {(5,5),(3,7),(3,2)} minus the root loses (3,2)). Fixes: fixes/C13-1..3.'),
     technique='bounded symbolic execution (cbmc, loops unwound with unwinding assertions) of the mechanically extracted KDTree text from '
               'every tree shape up to the bound, against a brute-force list model; no function/loop contract is discharged for this property',
 )
